@@ -26,7 +26,9 @@ PROP = dict(
                    floors={"mpt_stream_push": 100000, "mpt_stream_flush": 100000, "mpt_stream_dispatch": 100000,
                            "dispatch:callback": 50000, "dispatch:retry": 5000,
                            "history:stream-frame-in-several-segments": 5000, "history:stream-dec-wrapped": 2000,
-                           "history:flush-met-full-transport": 20, "monitor:stream-progress-check": 10000})],
+                           "history:flush-met-full-transport": 20, "monitor:stream-progress-check": 10000}),
+              dict(name="c02_cxx", src=["c02_cxx.cpp"], libs=["mpt++", "mptio", "mptplot", "mptcore"], batch=64,
+                   floors={"encode_queue::push": 100, "encode_queue::trim": 100, "decode_queue::advance": 100})],
         rule=("case = one history.  Queue leg: framing, encode/decode ring capacity and start offset, 5..60 messages (length 0..1600, "
               "thorough ..4200; unique ids; zero pairs, block-boundary lengths), PRNG schedule of push piece / terminate / move k "
               "finished bytes (1 byte, up to / just behind a delimiter, behind a code byte, all) / receive / shift / peek / rotate ring; "
